@@ -297,6 +297,16 @@ def run_selfvalidation(ctx, pid):
             ctx.ob("variant:" + vid, "pta/variants.py", INFO, "skipped, anchor text no longer present: " + msg)
         else:
             ctx.ob("variant:" + vid, "pta/variants.py", ERROR, "checker self-validation failed: " + msg)
+    # the confirmed seeded changes written against this property must still be reported
+    from . import seeds
+    sres, sfails = seeds.run(pid, jobs=16, verbose=False)
+    for sid, status, msg, fired in sres:
+        if status == "ok":
+            ctx.ob("seed:" + sid, "seeded/%s/patch.diff" % sid, DISCHARGED, "%s: %s" % (msg, "; ".join(fired)[:200]), True)
+        elif status == "skipped":
+            ctx.ob("seed:" + sid, "seeded/%s/patch.diff" % sid, INFO, msg)
+        else:
+            ctx.ob("seed:" + sid, "seeded/%s/patch.diff" % sid, ERROR, "a confirmed seeded change is no longer detected: " + msg)
 
 
 def run_controls(ctx, pid, rule_ids):
